@@ -27,6 +27,7 @@ PROPERTY PublishEmitsFullVector
 PROPERTY HeardIsMerge
 PROPERTY SuppressionDecision
 PROPERTY EmitsOnlyLocal
+PROPERTY OutdatedStartsSuppression
 PROPERTY Witnesses
 VIEW View
 CHECK_DEADLOCK FALSE
